@@ -21,6 +21,12 @@ use std::path::PathBuf;
 use std::sync::atomic::AtomicBool;
 use std::sync::{Arc, Mutex};
 use vharness::common::*;
+#[path = "sync_common/mod.rs"]
+mod sync_common;
+use discret::verif_hooks::database::system_entities::Peer;
+use discret::verif_hooks::date_utils::verif_clock;
+use discret::verif_hooks::security::base64_encode;
+use discret::{Parameters, ParametersAdd};
 
 // ---------------------------------------------------------------- rows as the model sees them
 #[derive(Clone, PartialEq, Debug)]
@@ -401,6 +407,186 @@ fn parse_witness(n: &[i64]) -> Option<(Row, Row)> {
     Some((Row { kind: k1, f: parse_fields(&rest[..p]) }, Row { kind: k2, f: parse_fields(&rest[p + 1..]) }))
 }
 
+// ---------------------------------------------------------------- stored rows (real instances)
+const STORE_MODEL: &str = "ns { Doc{ a:String, b:String nullable, refs:[ns.Doc] } Plain(no_full_text_index){ a:String } }";
+
+async fn all_nodes(net: &sync_common::Net, p: usize, only_peers: bool) -> Vec<Node> {
+    net.sql(p, move |c| {
+        let q = if only_peers { "SELECT id, room_id, cdate, mdate, _entity, _json, _binary, verifying_key, _signature FROM _node WHERE _entity='0.4' AND room_id IS NULL ORDER BY id" }
+                else { "SELECT id, room_id, cdate, mdate, _entity, _json, _binary, verifying_key, _signature FROM _node ORDER BY id" };
+        let mut st = c.prepare(q)?;
+        let rows = st.query_map([], |r| Ok(Node { id: r.get(0)?, room_id: r.get(1)?, cdate: r.get(2)?, mdate: r.get(3)?, _entity: r.get(4)?, _json: r.get(5)?,
+                                                    _binary: r.get(6)?, verifying_key: r.get(7)?, _signature: r.get(8)?, _local_id: None }))?;
+        rows.collect()
+    }).await
+}
+async fn all_edges(net: &sync_common::Net, p: usize) -> Vec<Edge> {
+    net.sql(p, |c| {
+        let mut st = c.prepare("SELECT src, src_entity, label, dest, cdate, verifying_key, signature FROM _edge")?;
+        let rows = st.query_map([], |r| Ok(Edge { src: r.get(0)?, src_entity: r.get(1)?, label: r.get(2)?, dest: r.get(3)?, cdate: r.get(4)?, verifying_key: r.get(5)?, signature: r.get(6)? }))?;
+        rows.collect()
+    }).await
+}
+async fn all_node_tombs(net: &sync_common::Net, p: usize) -> Vec<NodeDeletionEntry> {
+    net.sql(p, |c| {
+        let mut st = c.prepare("SELECT room_id, id, entity, mdate, deletion_date, verifying_key, signature FROM _node_deletion_log")?;
+        let rows = st.query_map([], |r| Ok(NodeDeletionEntry { room_id: r.get(0)?, id: r.get(1)?, entity: r.get(2)?, mdate: r.get(3)?, deletion_date: r.get(4)?, verifying_key: r.get(5)?, signature: r.get(6)?, entity_name: None }))?;
+        rows.collect()
+    }).await
+}
+async fn all_edge_tombs(net: &sync_common::Net, p: usize) -> Vec<EdgeDeletionEntry> {
+    net.sql(p, |c| {
+        let mut st = c.prepare("SELECT room_id, src, src_entity, dest, label, cdate, deletion_date, verifying_key, signature FROM _edge_deletion_log")?;
+        let rows = st.query_map([], |r| Ok(EdgeDeletionEntry { room_id: r.get(0)?, src: r.get(1)?, src_entity: r.get(2)?, dest: r.get(3)?, label: r.get(4)?, cdate: r.get(5)?, deletion_date: r.get(6)?,
+                                                               verifying_key: r.get(7)?, signature: r.get(8)?, entity_name: None }))?;
+        rows.collect()
+    }).await
+}
+fn ok_or_panic<F: FnOnce() -> bool + std::panic::UnwindSafe>(f: F) -> bool { std::panic::catch_unwind(f).unwrap_or(false) }
+
+/// a correctly signed sys.Peer row as a remote peer would present it
+fn crafted_peer(id: [u8; 16], sk: &Ed25519SigningKey, mdate: i64, variant: u8) -> Node {
+    let mut n = Peer::create(id, base64_encode(&[variant; 32]));
+    n.mdate = mdate;
+    n.sign(sk).unwrap();
+    n
+}
+
+/// sys.Peer rows through the real add_peer_nodes, compared column by column
+async fn case_peer_store(rng: &mut Rng, tag: usize, directed: Option<usize>, stats: &mut BTreeMap<String, u64>) -> Case {
+    let root = sync_common::work_root(&format!("C06/peers_{}_{}", seed(), tag));
+    let net = sync_common::Net::start(2, STORE_MODEL, root).await;
+    let own: Vec<Node> = vec![all_nodes(&net, 0, true).await.remove(0), all_nodes(&net, 1, true).await.remove(0)];
+    let signers: Vec<Ed25519SigningKey> = (0..4u8).map(|i| { let mut sd = [0x33u8; 32]; sd[0] = i; sd[1] = tag as u8; Ed25519SigningKey::create_from(&sd) }).collect();
+    // index tables: ids 0,1 = the instances' own peer ids; keys 0,1 = the instances' keys
+    let mut ids: Vec<[u8; 16]> = vec![own[0].id, own[1].id];
+    for i in 0..3u64 { ids.push(uid_of(7000 + i)); }
+    let mut keys: Vec<Vec<u8>> = vec![own[0].verifying_key.clone(), own[1].verifying_key.clone()];
+    for s in &signers { keys.push(s.export_verifying_key()); }
+    let mut rows: Vec<Node> = own.clone();
+    let mut ops: Vec<(usize, usize)> = vec![];
+    let mk = |rows: &mut Vec<Node>, id: usize, signer: usize, mdate: i64, variant: u8| -> usize { rows.push(crafted_peer(ids[id], &signers[signer], mdate, variant)); rows.len() - 1 };
+    match directed {
+        Some(0) => {   // the stored row of a known id is never mixed with a newer row of another signer
+            let a = mk(&mut rows, 2, 0, 0, 1); let b = mk(&mut rows, 2, 1, 5000, 2); let c = mk(&mut rows, 2, 0, 9000, 3);
+            ops = vec![(0, a), (0, b), (0, c), (1, b), (1, a)];
+        }
+        Some(1) => {   // rows that reuse the id of the instance's own sys.Peer row
+            let a = mk(&mut rows, 0, 0, 5000, 1); let b = mk(&mut rows, 1, 1, 7000, 2);
+            ops = vec![(0, a), (0, b), (1, a), (1, b), (0, 1), (1, 0)];
+        }
+        _ => {
+            for _ in 0..(3 + rng.below(6)) {
+                let r = if rows.len() > 2 && rng.chance(1, 4) { 2 + rng.below(rows.len() as u64 - 2) as usize }
+                        else { let id = rng.below(5) as usize; let sg = rng.below(4) as usize; let md = rng.below(4) as i64 * 1000; mk(&mut rows, id, sg, md, rng.below(3) as u8) };
+                ops.push((rng.below(2) as usize, r));
+                if rng.chance(1, 6) { ops.push((rng.below(2) as usize, rng.below(2) as usize)); }   // an instance's own row sent to the other one
+            }
+        }
+    }
+    for (dst, r) in &ops { let copy: Node = bincode::deserialize(&bincode::serialize(&rows[*r]).unwrap()).unwrap(); net.peers[*dst].db.add_peer_nodes(vec![copy]).await.unwrap(); }
+    let mut jsons: Vec<String> = vec![];
+    for r in &rows { let j = r._json.clone().unwrap_or_default(); if !jsons.contains(&j) { jsons.push(j); } }
+    let idx_id = |u: &[u8; 16]| ids.iter().position(|x| x == u).map(|x| x as i64).unwrap_or(99);
+    let idx_key = |k: &Vec<u8>| keys.iter().position(|x| x == k).map(|x| x as i64).unwrap_or(99);
+    let idx_json = |j: &Option<String>| jsons.iter().position(|x| Some(x) == j.as_ref()).map(|x| x as i64).unwrap_or(99);
+    let idx_sig = |sg: &Vec<u8>| rows.iter().position(|x| &x._signature == sg).map(|x| x as i64).unwrap_or(99);
+    let mut obs: Vec<i64> = vec![];
+    let mut failures = 0i64;
+    let mut checked = 0u64;
+    for p in 0..2 {
+        let mut st = all_nodes(&net, p, true).await;
+        st.sort_by_key(|n| idx_id(&n.id));
+        obs.push(st.len() as i64);
+        for n in &st {
+            obs.extend([idx_id(&n.id), idx_key(&n.verifying_key), n.mdate, idx_json(&n._json), idx_sig(&n._signature)]);
+            checked += 1;
+            let m = n.clone(); if !ok_or_panic(move || m.verify().is_ok()) { failures += 1; }
+        }
+        for k in &keys {
+            match net.peers[p].db.get_peer_node(k.clone()).await.unwrap() {
+                Some(n) => { obs.push(1); checked += 1; if !ok_or_panic(move || n.verify().is_ok() && Peer::validate(&n).is_ok()) { failures += 1; } }
+                None => obs.push(0),
+            }
+        }
+    }
+    obs.push(failures);
+    net.cleanup();
+    *stats.entry(format!("stored.peers.{}", if failures == 0 { "all-verify" } else { "STORED-ROW-REFUSED" })).or_insert(0) += 1;
+    let rows_t: Vec<String> = rows.iter().map(|r| format!("{{| pr_id := {}; pr_key := {}; pr_mdate := {}; pr_json := {} |}}", gn(idx_id(&r.id) as u64), gn(idx_key(&r.verifying_key) as u64), gz(r.mdate), gn(idx_json(&r._json) as u64))).collect();
+    let ops_t: Vec<String> = ops.iter().map(|(d, r)| format!("({}%nat, {}%nat)", d, r)).collect();
+    Case { kind: if directed.is_some() { "stored-peers-directed".to_string() } else { "stored-peers".to_string() },
+           coq: format!("CPeerStore {} [[0%nat]; [1%nat]] {} {}%nat", glist(&rows_t), glist(&ops_t), keys.len()), obs,
+           meta: json!({"rows_checked": checked, "refused_by_verify": failures, "ops": ops.len()}) }
+}
+
+/// local mutations, deletions, synchronisations: every stored / served row through the real verify()
+async fn case_stored_all(rng: &mut Rng, tag: usize, stats: &mut BTreeMap<String, u64>) -> Case {
+    let root = sync_common::work_root(&format!("C06/all_{}_{}", seed(), tag));
+    let net = sync_common::Net::start(2, STORE_MODEL, root).await;
+    let t0 = sync_common::T0;
+    let room = net.create_room(t0 - 30 * DAY, &["ns.Doc", "ns.Plain"]).await;
+    let b64 = |u: &[u8; 16]| sync_common::b64(u);
+    let mut docs: Vec<[u8; 16]> = vec![];
+    let mut refs: Vec<(usize, usize, usize)> = vec![];
+    let mut codes: Vec<u64> = vec![];
+    let mut t = t0;
+    let n_ops = 12 + rng.below(8);
+    for step in 0..n_ops {
+        t += if rng.chance(1, 6) { DAY } else { 1000 + rng.below(5000) as i64 };
+        verif_clock::set(t);
+        // first some rows on both instances and one exchange, then a mix of every kind of write
+        let (p, code) = if step < 4 { (step as usize % 2, 0) } else if step == 4 { (0, 7) } else if step == 5 { (1, 7) }
+                        else { (rng.below(2) as usize, *rng.pick(&[0u64, 2, 2, 3, 3, 3, 4, 4, 5, 7, 7])) };
+        codes.push(code);
+        match code {
+            0 | 1 => {
+                let mut pa = Parameters::default(); pa.add("room_id", b64(&room)).unwrap(); pa.add("a", format!("text {}", step)).unwrap();
+                if let Ok(r) = net.peers[p].db.mutate_raw("mutate { ns.Doc{ room_id:$room_id a:$a } }", Some(pa)).await { docs.push(r.mutate_entities[0].node_to_mutate.id); }
+            }
+            2 => {
+                let x = rng.below(docs.len() as u64) as usize;
+                let mut pa = Parameters::default(); pa.add("id", b64(&docs[x])).unwrap(); pa.add("a", format!("upd {}", step)).unwrap(); pa.add("b", "é\"\\\n".to_string()).unwrap();
+                let _ = net.peers[p].db.mutate_raw("mutate { ns.Doc{ id:$id a:$a b:$b } }", Some(pa)).await;
+            }
+            3 => {
+                let (x, y) = (rng.below(docs.len() as u64) as usize, rng.below(docs.len() as u64) as usize);
+                let mut pa = Parameters::default(); pa.add("id", b64(&docs[x])).unwrap(); pa.add("other", b64(&docs[y])).unwrap();
+                match net.peers[p].db.mutate_raw("mutate { ns.Doc{ id:$id refs:[{id:$other}] } }", Some(pa)).await { Ok(r) => { if std::env::var("C06_DEBUG").is_ok() { eprintln!("ref added: edges {}", r.mutate_entities[0].edge_insertions.len()); } refs.push((p, x, y)) } Err(e) => if std::env::var("C06_DEBUG").is_ok() { eprintln!("ref add: {}", e) } }
+            }
+            4 => {
+                if let Some((p, x, y)) = refs.pop() {
+                    let mut pa = Parameters::default(); pa.add("id", b64(&docs[x])).unwrap(); pa.add("other", b64(&docs[y])).unwrap();
+                    match net.peers[p].db.delete("delete { ns.Doc{ $id refs[$other] } }", Some(pa)).await { Ok(d) => if std::env::var("C06_DEBUG").is_ok() { eprintln!("ref del: edges {} log {}", d.edges.len(), d.edge_log.len()) }, Err(e) => if std::env::var("C06_DEBUG").is_ok() { eprintln!("ref del: {}", e) } }
+                }
+            }
+            5 => {
+                let x = rng.below(docs.len() as u64) as usize;
+                let mut pa = Parameters::default(); pa.add("id", b64(&docs[x])).unwrap();
+                let _ = net.peers[p].db.delete("delete { ns.Doc{ $id } }", Some(pa)).await;
+            }
+            _ => { net.barrier(0).await; net.barrier(1).await; let _ = net.pull(p, 1 - p, room, t).await; }
+        }
+    }
+    net.barrier(0).await; net.barrier(1).await;
+    t += 1000; let _ = net.pull(0, 1, room, t).await; t += 1000; let _ = net.pull(1, 0, room, t).await;
+    let mut failures = 0i64;
+    let mut counts = [0u64; 5];
+    for p in 0..2 {
+        for n in all_nodes(&net, p, false).await { counts[0] += 1; if !ok_or_panic(move || n.verify().is_ok()) { failures += 1; } }
+        for e in all_edges(&net, p).await { counts[1] += 1; if !ok_or_panic(move || e.verify().is_ok()) { failures += 1; } }
+        for d in all_node_tombs(&net, p).await { counts[2] += 1; if !ok_or_panic(move || d.verify().is_ok()) { failures += 1; } }
+        for d in all_edge_tombs(&net, p).await { counts[3] += 1; if !ok_or_panic(move || d.verify().is_ok()) { failures += 1; } }
+        let mut rx = net.peers[p].db.peers_for_room(room).await;
+        while let Some(Ok(v)) = rx.recv().await { for n in v { counts[4] += 1; if !ok_or_panic(move || n.verify().is_ok()) { failures += 1; } } }
+    }
+    net.cleanup();
+    *stats.entry(format!("stored.all.{}", if failures == 0 { "all-verify" } else { "STORED-ROW-REFUSED" })).or_insert(0) += 1;
+    for (i, name) in ["nodes", "edges", "node-tombstones", "edge-tombstones", "served-peers"].iter().enumerate() { *stats.entry(format!("stored.all.rows.{}", name)).or_insert(0) += counts[i]; }
+    Case { kind: "stored-all".to_string(), coq: format!("CStoredAll {}", glist(&codes.iter().map(|c| gn(*c)).collect::<Vec<_>>())), obs: vec![failures],
+           meta: json!({"nodes": counts[0], "edges": counts[1], "node_tombstones": counts[2], "edge_tombstones": counts[3], "served_peer_rows": counts[4], "refused_by_verify": failures}) }
+}
+
 fn uid_a() -> Vec<u8> { vec![0x41; 16] }
 
 #[tokio::main(flavor = "multi_thread", worker_threads = 2)]
@@ -513,6 +699,11 @@ async fn main() {
         }
     }
     let _ = std::fs::remove_dir_all(&dbdir);
+
+    // ---------------- stored rows on real instances (directed first)
+    for n in 0..scale(14, 140) { let d = if n < 2 { Some(n) } else { None }; let c = case_peer_store(&mut rng, n, d, &mut ctx.stats).await; cases.push(c); }
+    for n in 0..scale(8, 80) { let c = case_stored_all(&mut rng, n, &mut ctx.stats).await; cases.push(c); }
+    verif_clock::clear();
 
     // ---------------- generated
     let n_rows = scale(500, 7000);
